@@ -16,7 +16,16 @@ import (
 
 type Rand struct{ s uint64 }
 
-func NewRand(seed int64) *Rand { return &Rand{s: uint64(seed)*0x9E3779B97F4A7C15 + 0x1234567} }
+// NewRand derives the stream state from the seed through one finalising mix, so that
+// consecutive seeds give unrelated streams (state = seed*G would make seed k+1 the same
+// stream as seed k shifted by one draw).
+func NewRand(seed int64) *Rand {
+	z := uint64(seed) + 0x632BE59BD9B4E019
+	z = (z ^ (z >> 30)) * 0xBF58476D1CE4E5B9
+	z = (z ^ (z >> 27)) * 0x94D049BB133111EB
+	z ^= z >> 31
+	return &Rand{s: z}
+}
 
 func (r *Rand) U64() uint64 {
 	r.s += 0x9E3779B97F4A7C15
@@ -111,6 +120,7 @@ type CasesFile struct {
 	Runner string // function : list case -> list (Z * Z)
 	Type   string // case type
 	Cases  []string
+	Base   int // index of Cases[0] in the run's global case numbering
 }
 
 func (c *CasesFile) Add(term string) int { c.Cases = append(c.Cases, term); return len(c.Cases) - 1 }
@@ -130,7 +140,7 @@ func (c *CasesFile) Write(dir, name string, shard int) ([]string, error) {
 		sb.WriteString("From Coq Require Import ZArith List String.\nImport ListNotations.\n")
 		sb.WriteString("From Sunrise Require Import Base.Outcome " + c.Import + ".\n")
 		sb.WriteString("Local Open Scope Z_scope.\n")
-		sb.WriteString(fmt.Sprintf("Definition base : Z := %d.\n", off))
+		sb.WriteString(fmt.Sprintf("Definition base : Z := %d.\n", off+c.Base))
 		sb.WriteString("Definition cases : list " + c.Type + " := [\n")
 		for i := off; i < end; i++ {
 			sb.WriteString("  " + c.Cases[i])
